@@ -367,6 +367,12 @@ class World:
             self.names[id(o)] = n
             self.tracked.append((n, o))
         for n in sorted(vnames, key=lambda s: int(s[1:])):
+            if n == "v0":
+                # the value v0 is Python's None (a stored None is a value like any other; the wrapper's get() /
+                # setdefault() / pop() must not confuse it with "absent"); its reference count is not tracked
+                self.V[n] = None
+                self.names[id(None)] = n
+                continue
             o = Val(int(n[1:]))
             self.V[n] = o
             self.names[id(o)] = n
